@@ -507,4 +507,12 @@ def S0(ctx):
     common.S0_order(ctx, "C07.S0b", ["routee_compass_core::model::unit::cost::Cost", "routee_compass_core::model::unit::internal_float::InternalFloat"])
 
 
-RULES = [R1_floor, R2_helpers, R3_constructors, R4_formula, R5_weights, S0]
+def R6_feature_slots(ctx):
+    """the cost of an edge is the weighted, rated change of *each feature's own slot*: CostModel::new takes the slot of a feature from
+    StateModel::indexed_iter, which therefore has to enumerate the container as it is (index i = slot i) — shared with C11.R4; round 6:
+    an indexed_iter that skipped custom features shifted every later weight onto its neighbour's slot"""
+    from props.C11 import R4_state_model
+    R4_state_model(ctx)
+
+
+RULES = [R1_floor, R2_helpers, R3_constructors, R4_formula, R5_weights, S0, R6_feature_slots]
